@@ -32,11 +32,12 @@ def conservation_cases(seed=0, reduced=False):
     bad = []
     n = 0
     with tempfile.TemporaryDirectory() as td:
-        for ci, (n_term, screening, cur_units) in enumerate(((2, False, "uA"), (3, False, "uA"), (2, True, "uA"), (2, False, "mA"), (3, False, "nA"), (3, False, "switch"))):
-            if reduced and ci not in (1, 3, 5):
+        for ci, (n_term, screening, cur_units) in enumerate(((2, False, "uA"), (3, False, "uA"), (2, True, "uA"), (2, False, "mA"), (3, False, "nA"), (3, False, "switch"), (2, False, "twice"))):
+            if reduced and ci not in (1, 3, 5, 6):
                 continue
             switching = cur_units == "switch"
-            cur_units = "uA" if switching else cur_units
+            twice = cur_units == "twice"          # one TDGLSolver instance solved twice (public API): the second run injects the requested current too
+            cur_units = "uA" if (switching or twice) else cur_units
             dev = make_device(n_term=n_term)
             mesh = dev.mesh
             I = {"source": 3.0, "drain": -3.0} if n_term == 2 else {"source": 2.0, "drain": -0.5, "top": -1.5}
@@ -48,7 +49,12 @@ def conservation_cases(seed=0, reduced=False):
                     return {"source": 2.0, "top": -2.0} if t < 0.4 else {"source": 2.0, "drain": -2.0}
             opts = tdgl.SolverOptions(solve_time=1.0, save_every=20, include_screening=screening, current_units=cur_units, output_file=os.path.join(td, f"c{ci}.h5"))
             try:
-                sol = tdgl.solve(dev, opts, applied_vector_potential=0.1, terminal_currents=(Ifun if switching else Iu))
+                if twice:
+                    solver_ = tdgl.TDGLSolver(dev, opts, applied_vector_potential=0.1, terminal_currents=Iu)
+                    solver_.solve()
+                    sol = solver_.solve()
+                else:
+                    sol = tdgl.solve(dev, opts, applied_vector_potential=0.1, terminal_currents=(Ifun if switching else Iu))
             except Exception as e:  # noqa
                 bad.append(dict(what="balanced terminal currents rejected / run failed", currents=Iu, units=cur_units, error=f"{type(e).__name__}: {e}"))
                 continue
@@ -85,7 +91,8 @@ def conservation_cases(seed=0, reduced=False):
                         if abs(got - Iu[t.name]) > 1e-6 * max(1.0, abs(Iu[t.name])) * 1.0 and abs(got - Iu[t.name]) > 1e-6 * abs(Iu[t.name]):
                             bad.append(dict(what="current entering through a terminal differs from the requested current", terminal=t.name, requested=Iu[t.name], got=float(got), units=cur_units,
                                             case=ci, step=int(g.attrs["step"]), time=float(g.attrs["time"]),
-                                            currents=("t<0.4: source=2, top=-2; then source=2, drain=-2 (unlisted terminal = 0)" if switching else Iu)))
+                                            currents=("t<0.4: source=2, top=-2; then source=2, drain=-2 (unlisted terminal = 0)" if switching else Iu),
+                                            history=("second solve() of one TDGLSolver instance" if twice else "fresh solver")))
                             break
     logging.disable(logging.NOTSET)
     return bad, n
